@@ -107,6 +107,27 @@ CLAIMED = {
    note="Trusts Lean's kernel, extract.py, rdflib as Turtle parser/serialiser. Finding F-C05-3 (rdflib omits '@prefix rdf:' when rdf:type is "
         "a path object).",
    technique="Lean 4 proof over AST-generated tables + differential correspondence + cross-serialisation oracle", design="5/C11"),
+ "C05": dict(
+   text="Proof: the shapes prefix is fresh with respect to the configured prefixes and the first free candidate; the prefix map is functional; "
+        "every prefix used by a shortened term is declared; labels are a function of the class; no class gets two shapes; every shape "
+        "reference names a shape of the final list also after remove_empty_shapes (under the hypothesis that no datatype of the document itself "
+        "begins with the reference marker; the list-level statement without the inverse-direction hypothesis is refuted by a kernel-checked "
+        "witness); with remove_empty_shapes no empty shape is left. Tie: Text model (prefix block, labels, tokens) vs the emitted ShExC token by "
+        "token. Search: strict ShExC parse, prefix declarations, label uniqueness, reference closure and SHACL Turtle parse of every output.",
+   note="Trusts Lean's kernel, the strict ShExC parser of the harness, rdflib as Turtle parser. Findings F-C05-1 (same local name in two "
+        "namespaces), F-C05-2, F-C05-3.",
+   technique="Lean 4 proof (prefix freshness, reference closure by invariant through both passes and the merge stages) + differential correspondence + strict-parse search",
+   design="5/C05"),
+ "C17": dict(
+   text="Proof: the stem is a prefix of every instance IRI of the shape, ends at ':', '/' or '#', is at least as long as every "
+        "separator-terminated common prefix, has >= 3 characters and is not http:// or https://; a stem implies an instance; the shape example "
+        "is an instance; the constraint example is the value of a triple with that property, in that direction, on an instance of the shape - "
+        "for every document and configuration (induction over the longest-common-prefix fold with a relational invariant). The options are not "
+        "inputs of the model's constraint pipeline. Tie: MinIri.stem / shapeExample / constraintExample vs the '[<stem>~] AND', sh:pattern and "
+        "'// rdfs:comment' annotations. Search: stems and examples of the implementation checked directly against the instance IRIs and triples; "
+        "output with and without the options compared constraint by constraint.",
+   note="Trusts Lean's kernel, the ShExC / SHACL parsers of the harness. Finding F-C17-1 (an IRI-valued example is shortened and then quoted).",
+   technique="Lean 4 proof (fold invariant, prefix order) + differential correspondence + direct oracle", design="5/C17"),
 }
 PENDING_REASON = "check not built yet (work in progress; see DESIGN.md section 9 for the build order)"
 
